@@ -705,7 +705,12 @@ func (ev *evaluator) callExpr(n *ast.CallExpr) *Val {
 						mt := itv.Iter.mapVal.Typ.Underlying().(*types.Map)
 						_, _, doms, _ := ev.x.mapSorts(mt)
 						vis := ev.x.ctx.hread(ev.st, itv.Iter.cell+".visited", doms, itv.Iter.ref)
-						return &Val{T: Select(vis, k.T), Typ: boolT}
+						kk := k.T
+						if typeHasString(mt.Key()) {
+							ev.own()
+							kk = ev.x.mapKey(ev.st, k.T, mt.Key())
+						}
+						return &Val{T: Select(vis, kk), Typ: boolT}
 					}
 				}
 			}
@@ -879,6 +884,17 @@ func (ev *evaluator) callExpr(n *ast.CallExpr) *Val {
 		recv := ev.ev(sel.X)
 		return ev.methodCall(recv, sel.Sel.Name, n.Args)
 	}
+	// call of a function value given by an expression (an element of a slice of functions, a field)
+	if fv := ev.ev(n.Fun); fv != nil && fv.Typ != nil {
+		if _, isSig := fv.Typ.Underlying().(*types.Signature); isSig {
+			var args []*Val
+			for _, a := range n.Args {
+				args = append(args, ev.ev(a))
+			}
+			ev.own()
+			return ev.x.callClosure(ev.fr, ev.st, fv, args, token.NoPos)
+		}
+	}
 	ev.errorf("unsupported call %v", n.Fun)
 	return nil
 }
@@ -941,8 +957,26 @@ func (ev *evaluator) applySpec(sf *SpecFunc, args []ast.Expr) *Val {
 			rs, rt = SInt, intT
 		case "string":
 			rs, rt = SStr, types.Typ[types.String]
+		case "bool":
+		default:
+			// a named type of the declaring package (e.g. an arbitrary-but-fixed Tag: a spec without parameters is a
+			// constant, and what is proved about it holds for every value)
+			sub := &evaluator{x: ev.x, fr: ev.fr, st: ev.st, lets: map[string]*Val{}}
+			if sf.Pkg != "" {
+				if pf := ev.x.prog.anyFuncOfPkg(sf.Pkg); pf != nil {
+					sub.fr = &Frame{fn: pf, env: map[ssa.Value]*Val{}, entry: ev.fr.entry, lets: map[string]*Val{}}
+				}
+			}
+			rt = sub.resolveTypeName(sf.Ret)
+			rs = TE.SortOf(rt)
 		}
-		return &Val{T: UF("spec."+sanitize(sf.Pkg[strings.LastIndex(sf.Pkg, "/")+1:])+"."+sf.Name, rs, ts...), Typ: rt}
+		r := UF("spec."+sanitize(sf.Pkg[strings.LastIndex(sf.Pkg, "/")+1:])+"."+sf.Name, rs, ts...)
+		if rs != SBool && rs != SInt && !hasFreeBound(r) {
+			if f := ev.x.typeFact(&State{alloc: ev.x.job.alloc0}, r, rt, 0); f != True {
+				ev.x.ctx.assumeGlobal(ev.st, f)
+			}
+		}
+		return &Val{T: r, Typ: rt}
 	}
 	sub := &evaluator{x: ev.x, fr: ev.fr, st: ev.st, over: ev.over, lets: map[string]*Val{}, blk: ev.blk, owned: ev.owned, sumDepth: 0}
 	// spec bodies are resolved in the package that declares them
